@@ -10,6 +10,7 @@
 package evaluator
 
 import (
+	"strconv"
 	"strings"
 	"sync"
 	"time"
@@ -122,7 +123,7 @@ func (module *CachingEvaluator) getConsumerStatus(request *protocol.EvaluatorReq
 		zap.Bool("showall", request.ShowAll),
 	)
 
-	result, err := module.cache.Query(request.Cluster + " " + request.Group)
+	result, err := module.cache.Query(cacheKey(request.Cluster, request.Group))
 	if err != nil {
 		requestLogger.Info(err.Error())
 
@@ -170,15 +171,27 @@ func (module *CachingEvaluator) getConsumerStatus(request *protocol.EvaluatorReq
 	}
 }
 
+// cacheKey builds the cache key for a cluster and consumer group. The cluster name is prefixed with its length so that
+// the key can be split unambiguously, whatever characters (including spaces) the two names contain
+func cacheKey(cluster, consumer string) string {
+	return strconv.Itoa(len(cluster)) + " " + cluster + consumer
+}
+
 func (module *CachingEvaluator) evaluateConsumerStatus(clusterAndConsumer string) (interface{}, error) {
 	// First off, we need to separate the cluster and consumer values from the string provided
 	parts := strings.SplitN(clusterAndConsumer, " ", 2)
-	if len(parts) != 2 {
+	clusterLen := -1
+	if len(parts) == 2 {
+		if n, err := strconv.Atoi(parts[0]); err == nil {
+			clusterLen = n
+		}
+	}
+	if clusterLen < 0 || clusterLen > len(parts[len(parts)-1]) {
 		module.Log.Error("query with bad clusterAndConsumer", zap.String("arg", clusterAndConsumer))
 		return nil, &cacheError{StatusCode: 500, Reason: "bad request"}
 	}
-	cluster := parts[0]
-	consumer := parts[1]
+	cluster := parts[1][:clusterLen]
+	consumer := parts[1][clusterLen:]
 
 	// Fetch all the consumer offset and lag information from storage
 	storageRequest := &protocol.StorageRequest{
